@@ -124,3 +124,17 @@ Section RenameNameInFormula.
     let _restored := saved in                         (* set_locale(locale); set_language(language) *)
     out.
 End RenameNameInFormula.
+
+(* ---- update_defined_name(name, scope, new_name, new_scope, formula) on one stored cell formula ---- *)
+(* The loop runs only when the name changes ("if new_name != df.name"); the pass is called with the
+   OLD scope: a formula is rewritten where it resolved to the old (name, scope).  [new_scope] is an
+   argument of the operation and has no influence on which formulas are rewritten. *)
+Section UpdateNameInFormula.
+  Variable nm_en : names.
+  Variable env : penv.                      (* sheets and defined names BEFORE the update *)
+  Variable lower : text -> text.
+  Definition update_name_in_formula (name : text) (scope : option Z) (new_name : text) (new_scope : option Z)
+      (stored : list token) : list token :=
+    if text_eqb new_name name then stored
+    else formula_after_name_rename true nm_en nm_en env lower name scope new_name stored.
+End UpdateNameInFormula.
